@@ -1368,12 +1368,17 @@ def gen_cases(ctx, blends):
 # ---- the check -------------------------------------------------------------------------------
 def run(ctx: core.Run):
     gen = ctx.regenerate(extract_c16.gen_attr)
+    gen_table = ctx.regenerate(extract_c16.gen_attr_table)
     ctx.prove(["PsdVerif.Props.C16"])
     ctx.trusted_base += [
         "Lean 4.33 kernel; axioms allowed: propext, Classical.choice, Quot.sound (audited per theorem)",
         "Model/Attr.lean is a hand transliteration of the accessors in api/layers.py, TaggedBlocks.get_data/set_data, "
         "SectionDividerSetting/ProtectedSetting/LayerFlags/LayerRecord field encodings; tied by this run's correspondence check",
         "harness/extract_c16.py: BlendMode table, tag keys, enum values and the MacRoman table regenerated from the live modules",
+        "harness/extract_c16.py part 2 (symbolic evaluator over the AST of api/*.py, classes enumerated by reflection, setters "
+        "resolved through the live MRO): Generated/AttrTable.lean says what each getter reads and each setter does; the machine "
+        "of Model/AttrTable.lean (values as naturals per location, opaque tests and non-argument values adversarial) is the "
+        "semantics the table theorems are about; what the evaluator does not understand is `.other`, which tableOk rejects",
         "the byte layout around the modelled fields (lengths, padding, channel data, other blocks) is not part of this model (C01/C03)",
         "Model/Attr.lean `Doc`: several layers whose LayerFlags objects are addressed (object identity); its hypothesis `Owned` "
         "(every record owns its elements) is tied to the source by the regenerated table of attrs defaults of psd/layer_and_mask.py "
@@ -1389,6 +1394,7 @@ def run(ctx: core.Run):
     env = probe_env()
     ctx.extra["env_probe"] = env
     ctx.extra["generated_constants"] = gen
+    ctx.extra["accessor_table"] = gen_table
 
     cases = gen_cases(ctx, blends)
     results = []
@@ -1470,6 +1476,17 @@ def run(ctx: core.Run):
         "other layer of both documents of a scene before/after each step, two probe layers constructed before/after the step "
         "(layers created later), and the same layers read back from the files save() writes before/after the step; a failing "
         "history is cut down to the failing step (+ the creations before it, + the same attribute set to another value first)",
+        "accessor table: 54 rows (11 attributes incl. lock/unlock and the two components of offset x 5 representative classes "
+        "for the 28 layer classes); table_get_set / table_frame / table_persists hold for any table passing tableOk, "
+        "current_tree_attr_table_ok by decide; the table says WHERE a value is written, not how it is converted or validated - "
+        "value domains, codecs and the byte form stay with Model/Attr.lean and the correspondence; the getter's fallback "
+        "locations (legacy name field, record blend mode of a group without divider block) are outside table_get_set (hypothesis: "
+        "the first location exists afterwards)",
+        "search histories: save; edit; save - edit; save; edit; save - save; edit; save; edit; save for every attribute on every "
+        "source, edits on DETACHED API-created layers (Group.new without parent, PixelLayer.frompil(im, None)) followed by attach + "
+        "saves, seeded sequences with saves sprinkled in; position getters (left, top, right, bottom, offset, size, bbox) observed "
+        "for EVERY kind: a position edit is refused or the getters show it (never accepted without effect), and they read back "
+        "the same after save + reopen",
         "stated in DESIGN, not proved: nothing; 'persists via C01 + C08' is replaced by a self-contained save/reopen of the "
         "record fields and the three attribute blocks (Stored), byte framing left to C01/C03",
     ]
